@@ -16,7 +16,7 @@ add("C12", "checks/c11_c12_status.c", ["default-asan", "default-plain"], ["defau
     technique="runtime monitors (classification table by arithmetic, latch/hold transition relation, callback trace) over an exhaustive code sweep "
               "and an explicit-state breadth-first exploration of the real library plus random walks",
     level_text="exploration by execution: all 65536 error codes; every transition of the bounded state spaces of C11 with the callback observed "
-               "(quick ~4.7e7, thorough ~3e9 transitions); full 16-bit values and queue capacities 1-4 sampled by random walks",
+               "(quick 5-9e7 per build, thorough 1.7-3.2e9 transitions); full 16-bit values and queue capacities 1-4 sampled by random walks",
     level_note="exhaustive refers to the code sweep and to the bounded alphabets of the breadth-first slices; repeated announcements while MSS "
                "stays set are counted, not judged (the statement allows them); the callback value is accepted if it equals the status byte "
                "read at the call or after the operation; a callback in an operation that ends with MSS cleared is only counted",
